@@ -8,7 +8,11 @@
 #include "verif.hpp"
 
 #include <fcppt/literal.hpp>
+#include <fcppt/algorithm/binary_search.hpp>
 #include <fcppt/algorithm/join_strings.hpp>
+#include <fcppt/algorithm/repeat.hpp>
+#include <fcppt/iterator/make_range.hpp>
+#include <fcppt/iterator/range_impl.hpp>
 #include <fcppt/math/interval_distance.hpp>
 #include <fcppt/tuple/make.hpp>
 #include <fcppt/cast/int_to_float_fun.hpp>
@@ -66,6 +70,7 @@
 #include <limits>
 #include <stdexcept>
 #include <string>
+#include <memory>
 #include <algorithm>
 #include <list>
 #include <type_traits>
@@ -474,4 +479,39 @@ Reg const r_interval_distance{"interval_distance_lattice", Kind::exhaustive, "ev
                                 else interval_distance_one<long long>(static_cast<std::size_t>(static_cast<u64>(c.at(1))), static_cast<std::size_t>(static_cast<u64>(c.at(2))), static_cast<std::size_t>(static_cast<u64>(c.at(3))), static_cast<std::size_t>(static_cast<u64>(c.at(4))));
                               },
                               [](Ints const &c) { return std::string("interval_distance<") + (c.at(0) % 2 == 0 ? "int" : "long long") + "> of the intervals with lattice indices [" + std::to_string(c.at(1)) + "," + std::to_string(c.at(2)) + "] and [" + std::to_string(c.at(3)) + "," + std::to_string(c.at(4)) + "] (lattice: min, min+1, min/2, -2, -1, 0, 1, 2, 5, 6, max/2, max-1, max)"; }};
+
+// ---------------------------------------------------------------------------- algorithm::repeat, binary_search
+// repeat with every count of small signed / unsigned types (a negative count means "not at all"; a
+// loop that runs away is cut off by the callback so that it shows as an exception here instead of a
+// hang); binary_search on sorted ranges of 0..4 elements for values below, inside and above the range
+void repeat_search_one(int n, std::size_t len, int value)
+{
+  struct runaway {};
+  count(n <= 0 || len == 0);
+  auto const bounded = [](auto count_value) {
+    long calls = 0;
+    try { fcppt::algorithm::repeat(count_value, [&calls] { if (++calls > 100000) throw runaway{}; }); }
+    catch (runaway const &) { verif::fail("algorithm::repeat|runaway-loop|undocumented-exception", "repeat(" + std::to_string(static_cast<long long>(count_value)) + ") ran for more than 100000 iterations"); }
+    touch(calls);
+  };
+  total("algorithm::repeat", [&] {
+    bounded(static_cast<signed char>(n));
+    bounded(static_cast<short>(n));
+    bounded(n);
+    bounded(static_cast<long long>(n));
+    if (n >= 0) { bounded(static_cast<unsigned char>(n)); bounded(static_cast<unsigned>(n)); }
+  });
+  total("algorithm::binary_search", [&] {
+    std::unique_ptr<int[]> exact(new int[len]);
+    for (std::size_t i = 0; i < len; ++i) exact[i] = static_cast<int>(2 * i + 2); // 2, 4, 6, 8: exact-size block
+    fcppt::iterator::range<int const *> const r(exact.get(), exact.get() + len);
+    touch(fcppt::algorithm::binary_search(r, value).has_value());
+    std::vector<int> const v(exact.get(), exact.get() + len);
+    touch(fcppt::algorithm::binary_search(v, value).has_value());
+  });
+}
+Reg const r_repeat_search{"repeat_counts_binary_search_edges", Kind::exhaustive, "a count <= 0 or an empty range",
+                          [] { for (i64 n = -5; n <= 6; ++n) for (i64 len = 0; len <= 4; ++len) for (i64 v = 0; v <= 10; ++v) { cur3(n, len, v); repeat_search_one(static_cast<int>(n), static_cast<std::size_t>(len), static_cast<int>(v)); } },
+                          [](Ints const &c) { repeat_search_one(static_cast<int>(c.at(0) % 100), static_cast<std::size_t>(static_cast<u64>(c.at(1)) % 5), static_cast<int>(c.at(2) % 100)); },
+                          [](Ints const &c) { return "repeat(" + std::to_string(c.at(0) % 100) + ") for signed char / short / int / long long (and unsigned if >= 0); binary_search for " + std::to_string(c.at(2) % 100) + " in the first " + std::to_string(static_cast<u64>(c.at(1)) % 5) + " of {2,4,6,8}"; }};
 }
